@@ -185,9 +185,9 @@ class AstToSqlVisitor(visitor.NodeVisitor):
         comparator = self.visit(node.comparator)
 
         # In case of a subexpression, wrap it in parentheses
-        if isinstance(node.left, (ast.BoolOp, ast.Compare)):
+        if self._is_boolean_expression(node.left):
             left = f"({left})"
-        if isinstance(node.right, (ast.BoolOp, ast.Compare)):
+        if self._is_boolean_expression(node.right):
             right = f"({right})"
 
         #  'eq/ne null' should become 'IS (NOT) NULL' instead of '(!)= NULL'
@@ -198,6 +198,19 @@ class AstToSqlVisitor(visitor.NodeVisitor):
                 comparator = "IS NOT"
 
         return f"{left} {comparator} {right}"
+
+    @staticmethod
+    def _is_boolean_expression(node: ast._Node) -> bool:
+        """
+        Whether ``node`` is rendered as a SQL predicate (a comparison, ``NOT``,
+        ``AND``/``OR`` or a function that becomes e.g. a ``LIKE``), which must
+        be parenthesised when it is itself an operand of a comparison.
+
+        :meta private:
+        """
+        if isinstance(node, (ast.BoolOp, ast.Compare, ast.UnaryOp)):
+            return True
+        return isinstance(node, ast.Call) and typing.infer_type(node) is ast.Boolean
 
     def visit_And(self, node: ast.And) -> str:
         ":meta private:"
